@@ -280,3 +280,41 @@ func MethodInfos(c *model.Conv) ([]*MethodInfo, *model.Reject) {
 	}
 	return out, nil
 }
+
+// CompileOnly generates and builds the whole module (no driver). extra files are
+// written after generation.
+func (s *Session) CompileOnly(rs *RunSpec, extra func(files map[string]string) map[string]string) *RunOutcome {
+	out := &RunOutcome{}
+	dir, err := s.PrepareModule(rs.Prog)
+	out.Dir = dir
+	if err != nil {
+		out.Infra = err.Error()
+		return out
+	}
+	// the input must compile before goverter runs
+	gen, files, err := s.GenerateInto(dir, rs.Patterns, rs.Global)
+	out.Gen = gen
+	out.Files = files
+	if err != nil {
+		out.Infra = err.Error()
+		return out
+	}
+	if !gen.OK() {
+		return out
+	}
+	if extra != nil {
+		if err := WriteTree(dir, extra(files)); err != nil {
+			out.Infra = err.Error()
+			return out
+		}
+	}
+	build := s.goRun(dir, 10*time.Minute, "build", "./...")
+	if build.TimedOut || build.Err != nil {
+		out.Infra = "go build: timeout or exec error " + fmt.Sprint(build.Err)
+		return out
+	}
+	if build.Exit != 0 {
+		out.BuildErr = build.Stdout + build.Stderr
+	}
+	return out
+}
